@@ -5,7 +5,7 @@ import numpy as np
 
 from .. import engine, optics as op, refmodel as rm
 from .. import histories
-from ..histories import t_callhist        # worker task of the history harness (mc/histories.py)
+from ..histories import t_callhist, t_cross      # worker tasks of the history harness (mc/histories.py)
 
 PID = 'C05'
 MOD = 'mc.props.c05'
@@ -38,8 +38,18 @@ def make(pupil, seed, power=None, variant=None, phys=None):
             m3[c % 3][:, c] = 1
         m3 = m3 * (amp != 0)
         kw['mask'] = m3[[k for k in range(3) if m3[k].any()]]
+    tilt = None
+    if variant == 'tilt07':
+        # tilt metadata that displaces the image by (0.7, -0.8) oversampled samples: between half a sample and a whole one
+        tilt = (0.7, -0.8)
+    if variant == 'imagpart':
+        # a quarter-wave region written into the amplitude: purely imaginary transmission on part of the aperture, no explicit mask
+        amp = amp.astype(complex)
+        amp[:, ::2] = amp[:, ::2] * 1j
     if power is not None:
         amp = lentil.normalize_power(amp, power)
+    if tilt is not None:
+        return (lentil.Wavefront(WL) * lentil.Pupil(amplitude=amp.copy(), opd=opd.copy(), pixelscale=DX, focal_length=Z, **kw), op.phasor(amp, opd, WL), tilt)
     if phys is not None:
         w = lentil.Wavefront(phys['wl']) * lentil.Pupil(amplitude=amp.copy(), opd=opd.copy(), pixelscale=phys['dx'], focal_length=phys['z'], **kw)
         return w, op.phasor(amp, opd, WL)
@@ -56,7 +66,12 @@ def chk_full(case, acc, seed):
     import lentil
     pupil, N, os_, prop = tuple(case['pupil']), tuple(case['N']), case['os'], case['prop']
     phys = DEC if case.get('sampling') == 'decimal' else None
-    w, fin = make(pupil, seed, case.get('power'), case.get('variant'), phys)
+    made = make(pupil, seed, case.get('power'), case.get('variant'), phys)
+    w, fin = made[0], made[1]
+    if len(made) == 3:
+        # angles that give the requested displacement for this period: shift = z * angle / (du / os) oversampled samples
+        du_t = du_for(N, os_)
+        w = w * lentil.Tilt(x=made[2][0] * du_t[0] / os_ / Z, y=made[2][1] * du_t[1] / os_ / Z)
     pin = float(np.sum(np.abs(fin) ** 2))
     if case.get('power') is not None and abs(pin - case['power']) > 1e-12 * case['power']:
         acc.violation('normalize_power:value', case, f'sum|amp|^2 = {pin!r} != {case["power"]}')
@@ -212,7 +227,12 @@ def t_pupil(arg, acc):
                 for prop in ('dft', 'fft'):
                     acc.transitions += 1
                     chk_full({'kind': 'full', 'pupil': pupil, 'N': (Nr, Nc), 'os': 1, 'prop': prop, 'power': p}, acc, seed)
-            for variant in ('signed', 'seg3'):
+            for prop in ('dft',):
+                chk_full({'kind': 'full', 'pupil': pupil, 'N': (Nr, Nc), 'os': 1, 'prop': prop, 'power': 3.0, 'variant': 'tilt07'}, acc, seed)
+                if Nr % 2 == 0 and Nc % 2 == 0:
+                    chk_full({'kind': 'full', 'pupil': pupil, 'N': (Nr, Nc), 'os': 2, 'prop': prop, 'variant': 'tilt07'}, acc, seed)
+            for variant in ('signed', 'seg3', 'imagpart'):
+                chk_full({'kind': 'full', 'pupil': pupil, 'N': (Nr, Nc), 'os': 1, 'prop': 'fft-scratch', 'power': 3.0, 'variant': variant}, acc, seed)
                 for prop in ('dft', 'fft'):
                     acc.transitions += 1
                     chk_full({'kind': 'full', 'pupil': pupil, 'N': (Nr, Nc), 'os': 1, 'prop': prop, 'power': 3.0, 'variant': variant}, acc, seed)
